@@ -3,22 +3,10 @@
    the translated Go code changes the generated definitions and breaks a NAMED obligation here. *)
 From Verif Require Import Common.Base C01.Model.
 From Verif Require Generated.C01Queue Generated.C01Storage.
+From Verif Require Export C01.TranslatedDefs.
 From Coq Require Import String.
 
 Local Open Scope Z_scope.
-
-(* ---- bytesToItemIndex (persistent_queue.go) ----
-   The generated function takes what the Go code looks at: buf == nil, len(buf), binary.LittleEndian.Uint64(buf). *)
-Definition index_result_code (r : N + derr) : Z * option string :=
-  match r with
-  | inl n => (Z.of_N n, None)
-  | inr ErrNotSet => (0, Some "errValueNotSet"%string)
-  | inr ErrInvalid => (0, Some "errInvalidValue"%string)
-  end.
-
-Definition buf_isnil (buf : option (list N)) : bool := match buf with None => true | Some _ => false end.
-Definition buf_len (buf : option (list N)) : Z := match buf with None => 0 | Some b => Z.of_nat (List.length b) end.
-Definition buf_le64 (buf : option (list N)) : Z := match buf with None => 0 | Some b => Z.of_N (le_val (firstn 8 b)) end.
 
 Lemma bytesToItemIndex_matches_go_l buf :
   index_result_code (bytesToItemIndex buf) =
